@@ -94,12 +94,14 @@ func checkC06(w *Worker) {
 	reference := func(cmd c06Cmd, l absLog, extra []string) AppRun {
 		lt := renderLog(l)
 		key := cmd.Name + "\x00" + lt + "\x00" + strings.Join(extra, " ")
-		if r, ok := refCache[key]; ok {
-			return r
-		}
 		args := append([]string{"--no-color", "--today", c06Today}, cmd.Args...)
 		args = append(args, extra...)
-		r := runApp(appCase{Args: args, Files: map[string]string{"food.yaml": bookText, "log.yaml": lt}})
+		rc := appCase{Args: args, Files: map[string]string{"food.yaml": bookText, "log.yaml": lt}}
+		if r, ok := refCache[key]; ok {
+			logRun(rc, r)
+			return r
+		}
+		r := runApp(rc)
 		if len(refCache) < 200000 {
 			refCache[key] = r
 		}
